@@ -1,5 +1,5 @@
 """C18: NULL-GUARD, SETLEN-CAP (ALLOC-PAIR is the typestate engine of rules/fd.py in its memory domain)."""
-from vlib.flow import Expr, Tracer, edge_label, expr_str, expr_strip_blocks
+from vlib.flow import Expr, Tracer, edge_label, expr_str, expr_strip_blocks, ref_place, value_reaches_place
 from vlib.mir import callee_name, op_const, op_local, op_place, strip_generics
 from rules.send import _root_local
 
@@ -151,7 +151,7 @@ def rule_setlen_cap(ctx, cfg, F):
         order = sorted(sites, key=lambda bt: len(f.dominators().get(bt[0], ())))
         for b, t in order:
             n_sites += 1
-            V = _root_local(f, tr, t["args"][0])
+            V = ref_place(f, t["args"][0]) or _root_local(f, tr, t["args"][0])
             n_expr = ex.of_operand(t["args"][1])
             n_key = expr_strip_blocks(n_expr)
             why = None
@@ -182,12 +182,12 @@ def rule_setlen_cap(ctx, cfg, F):
                             if le:
                                 cap_op = lab["b"] if cap_side(eb) else lab["a"]
                                 cb = _def_call_block(f, cap_op)
-                                if cb is not None and _root_local(f, tr, f.term(cb)["args"][0]) == V:
+                                if cb is not None and (ref_place(f, f.term(cb)["args"][0]) or _root_local(f, tr, f.term(cb)["args"][0])) == V:
                                     why = "dominated by the edge n <= capacity()"
             # (c1) n = R - H, R returned by the receive, after a justified set_len on V
             if not why and n_expr[0] == "bin" and n_expr[1] == "Sub":
                 R_, H_ = n_expr[2], n_expr[3]
-                prev = [pb for pb in justified if justified[pb][0] == V and f.dominates(pb, b)]
+                prev = [pb for pb in justified if _same_vec(f, justified[pb][0], V) and f.dominates(pb, b)]
                 if prev and _contains_call(R_, lambda nm: _calls_recvmsg(F, nm)) and _nonneg(H_):
                     why = "n = bytes received - header, the receive was offered len() bytes established by the set_len at %s" % f.loc(prev[-1])
             # (c2) n = W + max(r, 0), r = recv(.., E - W), E established by a dominating justified set_len
@@ -200,7 +200,7 @@ def rule_setlen_cap(ctx, cfg, F):
                             rlen = rcalls[0][2][2]
                             if rlen[0] == "bin" and rlen[1] == "Sub" and expr_strip_blocks(rlen[3]) == expr_strip_blocks(W):
                                 E = expr_strip_blocks(rlen[2])
-                                prev = [pb for pb in justified if justified[pb][0] == V and f.dominates(pb, b) and justified[pb][1] == E]
+                                prev = [pb for pb in justified if _same_vec(f, justified[pb][0], V) and f.dominates(pb, b) and justified[pb][1] == E]
                                 if prev:
                                     why = "n = W + max(r,0) with r = recv(.., E - W) and E <= capacity established at %s" % f.loc(prev[-1])
             if why:
@@ -256,8 +256,19 @@ def _def_call_block(f, operand):
     return None
 
 
+def _same_vec(f, a, b):
+    """two vector designations (local, or (local, field path)) name the same vector: equal, or the earlier one is moved into the later place"""
+    if a == b:
+        return True
+    if isinstance(a, tuple) and isinstance(b, tuple) and not a[1]:
+        return value_reaches_place(f, a[0], b)
+    return False
+
+
 def _flows_to(f, src_local, dst_local):
     """src is moved (possibly through temporaries) into dst"""
+    if isinstance(dst_local, tuple):
+        return value_reaches_place(f, src_local, dst_local)
     if src_local == dst_local:
         return True
     for (b, si, node) in f.defs().get(dst_local, []):
